@@ -474,14 +474,14 @@ func appendInt(dst []byte, bits uint8, index uint64) []byte {
 
 	dst[len(dst)-1] |= byte(b0)
 	index -= b0
-	for index != 0 {
+
+	// At least one continuation octet always follows an all-ones prefix, also
+	// when what is left is zero (RFC 7541 5.1).
+	for ; index >= 128; index >>= 7 {
 		dst = append(dst, 128|byte(index&127))
-		index >>= 7
 	}
 
-	dst[len(dst)-1] &= 127
-
-	return dst
+	return append(dst, byte(index))
 }
 
 // readString reads string from a header field.
